@@ -454,7 +454,7 @@ def r16_destructuring_assignment(text):
     for n in range(50):
         m = mask(text)
         mt = None
-        for cand in re.finditer(r'(?m)^([ \t]*)\(([^()=;{}]*,[^()=;{}]*)\)\s*=(?!=)', m):
+        for cand in re.finditer(r'(?m)^([ \t]*)\(([^()=;{}]*,[^()=;{}]*)\)\s*=(?![=>])', m):
             indent = cand.group(1)
             names = [x.strip() for x in text[cand.start(2):cand.end(2)].split(',')]
             if names and names[-1] == '':
